@@ -148,8 +148,11 @@ func setStr(m map[int64]bool) string {
 	return fmt.Sprint(ks)
 }
 
+// platform packages that assemble emulation / timing GPUs
+var platformPkgs = []string{"amd/samples/runner/emusystem/emugpu", "amd/samples/runner/timingconfig/mi300a", "amd/samples/runner/timingconfig/r9nano", "amd/samples/runner/timingconfig/shaderarray"}
+
 func runC02(c *core.Ctx) core.Meta {
-	c.Load(cuPkg, wfPkg, emuPkg, cdna3Pkg, driverPkg, cpPkg, instsPkg)
+	c.Load(cuPkg, wfPkg, emuPkg, cdna3Pkg, driverPkg, cpPkg, instsPkg, platformPkgs[0], platformPkgs[1], platformPkgs[2], platformPkgs[3])
 	c.BuildSSA()
 	pcu := NewPkgInfo(c, cuPkg)
 	pd := NewPkgInfo(c, driverPkg)
@@ -762,6 +765,67 @@ func runC02(c *core.Ctx) core.Meta {
 		st7.Sample("kernel launch handling (driver, command processor) reaches a cache flush request: %v; control processFlushReq: %v", okI, ctl)
 		if !okI {
 			c.Report(core.Finding{Rule: "R02.7", Pkg: cpPkg, Func: "cpMiddleware.processLaunchKernelReq", Detail: "l1-not-invalidated-between-kernels", Msg: "nothing in the kernel launch path of the driver or the command processor flushes the per-CU L1 caches: a compute unit that read a line in one kernel gets a stale hit in the next kernel after another compute unit rewrote the line (caches are flushed only for memory copies that touch dirty buffers); bitonicsort -timing -verify fails, the emulator passes"})
+		}
+	}
+
+	// ---------------- R02.8 the decoder follows the architecture of the ALU ----------------
+	st8 := c.Rule("R02.8", "the decoder has architecture-dependent rules (Disassembler.IsCDNA3) and the two modes must decode a kernel identically: every platform package that installs the CDNA3 ALU (a reference to cdna3.NewALU) also configures the decoder for CDNA3 (a store to Disassembler.IsCDNA3), and a compute-unit builder that accepts a decoder installs it (the timing CU's Decoder is the configured one when one was given)", 3)
+	{
+		for _, rel := range platformPkgs {
+			if !c.HasPkg(rel) {
+				continue
+			}
+			usesCDNA3, setsFlag := false, false
+			var where *ssa.Function
+			for _, fn := range c.SrcFuncs(rel) {
+				for _, b := range fn.Blocks {
+					for _, in := range b.Instrs {
+						if cc := core.CallOf(in); cc != nil {
+							if cal := cc.StaticCallee(); cal != nil && cal.Name() == "NewALU" && cal.Pkg != nil && strings.HasSuffix(cal.Pkg.Pkg.Path(), cdna3Pkg) {
+								usesCDNA3 = true
+								if where == nil {
+									where = fn
+								}
+							}
+						}
+						if s, ok := in.(*ssa.Store); ok {
+							if fa, ok := s.Addr.(*ssa.FieldAddr); ok && fieldNameOf(fa) == "IsCDNA3" {
+								setsFlag = true
+							}
+						}
+					}
+				}
+			}
+			if !usesCDNA3 {
+				st8.Sample("%s: no CDNA3 ALU", rel)
+				continue
+			}
+			st8.Instances++
+			st8.Ob(setsFlag)
+			st8.Sample("%s: installs the CDNA3 ALU, configures the decoder for CDNA3: %v", rel, setsFlag)
+			if !setsFlag {
+				c.MarkAnalysed(where)
+				c.ReportAt("R02.8", where, where.Pos(), "decoder-not-cdna3:"+rel, rel+" installs the CDNA3 ALU but never sets Disassembler.IsCDNA3: its compute units decode with the GCN3 rules (a FLAT / GLOBAL access with SADDR = s[0:1] is decoded as a VGPR-pair address), while the emulation platform of the same architecture decodes with the CDNA3 rules")
+			}
+		}
+		// the timing CU builder installs a given decoder
+		if fn := c.MustFunc("R02.8", cuPkg, "Builder.Build"); fn != nil {
+			st8.Instances++
+			c.MarkAnalysed(fn)
+			installs := false
+			for _, b := range fn.Blocks {
+				for _, in := range b.Instrs {
+					if s, ok := in.(*ssa.Store); ok {
+						if fa, ok := s.Addr.(*ssa.FieldAddr); ok && fieldNameOf(fa) == "Decoder" && strings.Contains(prov.Of(s.Val), ".decoder") {
+							installs = true
+						}
+					}
+				}
+			}
+			st8.Ob(installs)
+			if !installs {
+				c.ReportAt("R02.8", fn, fn.Pos(), "decoder-option-ignored", "the compute-unit builder never installs the decoder it was configured with: every timing compute unit decodes with a default (GCN3) disassembler")
+			}
 		}
 	}
 
